@@ -88,10 +88,9 @@ def versionBefore (cl : List Child) (end_ : Int) : Option Child :=
     | c :: rest, latest => if ¬ timeThreshold c 0 < end_ then latest else go rest (some c)
   go cl none
 
+/-- `updateTimestamp` (annotate/shared): the rule `timeThreshold` places the version in time with -/
 def updateTimestamp (ts : Int) (committed : Option Int) : Int :=
-  match committed with
-  | none => ts
-  | some c => if ts < commitInfoStart then ts else c
+  if beforeStart committed then ts else committed.getD 0
 
 def Child.update (c : Child) (index : Nat) : Update :=
   { index := index, version := c.version, ts := updateTimestamp c.ts c.committed, changeset := c.changeset,
